@@ -447,12 +447,17 @@ func (self *VM) spawnCoreInternal(
 
 func (self *VM) WaitNonConsuming() {
 	for {
+		// The read lock is released in every round: held until the return (a `defer` in the loop),
+		// it kept `Wait` and every `spawn` from ever taking the write lock.
 		self.Cores.Lock.RLock()
-		defer self.Cores.Lock.RUnlock()
+		idle := len(self.Cores.Cores) == 0
+		self.Cores.Lock.RUnlock()
 
-		if len(self.Cores.Cores) == 0 {
+		if idle {
 			break
 		}
+
+		time.Sleep(VMWaitIdleSleep)
 	}
 }
 
